@@ -198,15 +198,30 @@ const char *msgdata = MAP_FAILED; off_t msgsize;
 
 void log_write(int p, const char *s) { (void)p; (void)strlen(s); }
 void log_writen(int p, const char **s) { (void)p; for (int i = 0; s[i]; i++) (void)strlen(s[i]); }
+/* a TLS session belongs to the connection it was negotiated on: used on another one it is a protocol error
+ * (what the real library answers when it finds clear text where it expects a record) */
+static int ssl_owner = -1;
 int ssl_timeoutread(SSL *s, time_t t, char *b, const int l)
 {
 	(void)s; (void)t;
+	if (ssl_owner != curhost) return -EPROTO;
 	struct stream *st = &hosts[curhost].tls;
 	if (st->pos >= st->len) { if (st->curcut < st->ncuts) st->curcut++; return st->silent ? -ETIMEDOUT : -ECONNRESET; }
 	return (int)take(st, b, (size_t)l);
 }
-int ssl_timeoutwrite(SSL *s, time_t t, const char *b, const int l) { (void)s; (void)t; tr("w%dt", curhost); trhex(b, (size_t)l); return l; }
-int ssl_timeoutconn(SSL *s, time_t t) { (void)s; (void)t; tr("h%d:%ld", curhost, hosts[curhost].handshake); return (int)hosts[curhost].handshake; }
+int ssl_timeoutwrite(SSL *s, time_t t, const char *b, const int l)
+{
+	(void)s; (void)t;
+	if (ssl_owner != curhost) return -EPROTO;
+	tr("w%dt", curhost); trhex(b, (size_t)l); return l;
+}
+int ssl_timeoutconn(SSL *s, time_t t)
+{
+	(void)s; (void)t;
+	tr("h%d:%ld", curhost, hosts[curhost].handshake);
+	if (hosts[curhost].handshake >= 0) ssl_owner = curhost;
+	return (int)hosts[curhost].handshake;
+}
 void ssl_free(SSL *s) { SSL_free(s); }
 void ssl_library_destroy(void) {}
 const char *ssl_error(void) { return "E"; }
